@@ -49,7 +49,7 @@ func relayType(k int) int32 {
 // VerifC02Step: one arbitrary step by a0; every other member of the session is relayed exactly what
 // the accepted change requires, exactly once; a0 itself, the other session and the unjoined connection nothing.
 func VerifC02Step() {
-	s := newStepWorld(stepShape{mods: vModVikja | vModOdal, preset: verifnd.Choice(2), rejoin: verifnd.Bool(), symIDs: true})
+	s := newStepWorld(stepShape{mods: vModVikja | vModOdal, preset: verifnd.Choice(2), rejoin: verifnd.Bool(), symIDs: true, prior: verifnd.Bool()})
 	if s.hasAction {
 		assumeValidTS(s.actSec, s.actNanos)
 	}
